@@ -416,6 +416,17 @@ def parseSpEntry (s : String) : Option ((Bytes × Bytes × Format.Tm) × Option 
 
 def fmtOp (st : DState) (toks : List String) : Option (DState × String) :=
   match toks with
+  | ["subapi", n, d, c, _rep] => do
+      -- lookup / convert / format of a time_point<duration<Rep, ratio<N, D>>> in UTC: split_seconds first
+      let n ← n.toInt?; let d ← d.toInt?; let c ← c.toInt?
+      let r : Ck (Fields × Bytes) := do
+        let (sec, sub) ← Split.splitSeconds n d c
+        let fs ← Split.subToFemto n d sub
+        let utc ← Tz.resetToBuiltinUTC 0
+        let (al, _) ← Tz.breakTime utc 0 sec
+        let (tm, segs) ← Format.formatSegs (Bytes.ofString "%Y-%m-%d %H:%M:%E*S") al sec fs
+        pure (al.cs, Format.render (fun _ _ => []) tm segs)
+      some (st, showCk r fun (cs, txt) => s!"S {showFields cs} | {showFields cs} | {Bytes.toHex txt}")
   | ["fmt", id, t, fs, hexfmt] => do
       let t ← t.toInt?; let fs ← fs.toInt?
       let f ← Bytes.ofHex hexfmt
